@@ -195,6 +195,14 @@ func (st *State) genCandidates(li *loopInfo, ws *writeSet) []candidate {
 				t, ok := s.cellTerm(v.c)
 				return Eq(t, v.entry), ok
 			})
+			{
+				// the append idiom: still the object the loop started with (same window), or one allocated since
+				la := st.alloc
+				add("appended("+v.name+")", func(s *State) (Term, bool) {
+					t, ok := s.cellTerm(v.c)
+					return And(Eq(SlOff(t), SlOff(v.entry)), Or(And(Eq(SlRef(t), SlRef(v.entry)), Eq(SlCap(t), SlCap(v.entry))), Gt(SlRef(t), la))), ok
+				})
+			}
 			if st.entry != nil {
 				ea := st.entry.alloc
 				add("fresh("+v.name+")", func(s *State) (Term, bool) {
@@ -319,6 +327,32 @@ func (st *State) genCandidates(li *loopInfo, ws *writeSet) []candidate {
 				if t, ok := st.tryPtrTerm(v); ok && strings.HasPrefix(hn, "H_"+string(e.sortOfSafe(elemOf(v.T)))+"_") {
 					refs = append(refs, t)
 					rnames = append(rnames, nm)
+				}
+			}
+		}
+		// slice parameters (entry values) of the function: the append idiom reassigns the parameter's cell, so the
+		// frame is phrased over the entry value: other old objects untouched; the entry object only changes in [len, cap)
+		if strings.HasPrefix(hn, "M_") && st.entry != nil {
+			if fe, ok := st.entry.heap[hn]; ok {
+				ea := st.entry.alloc
+				for _, pv := range fr.fn.Params {
+					v, ok := fr.regs[pv]
+					if !ok || !isSlice(v.T) || v.Tm.IsZero() {
+						continue
+					}
+					if mn, _ := e.memName(elemOf(v.T)); mn != hn {
+						continue
+					}
+					pref, plo, phi := SlRef(v.Tm), Add(SlOff(v.Tm), SlLen(v.Tm)), Add(SlOff(v.Tm), SlCap(v.Tm))
+					ixq := Term{"i!q", SInt}
+					add("paramframe("+hn+";"+pv.Name()+")", func(s *State) (Term, bool) {
+						cur, ok := s.heap[hn]
+						return Forall([]Term{r}, Implies(And(Le(IntLit(0), r), Le(r, ea), Ne(r, pref)), Eq(Select(cur, r), Select(fe, r)))), ok
+					})
+					add("paramtail("+hn+";"+pv.Name()+")", func(s *State) (Term, bool) {
+						cur, ok := s.heap[hn]
+						return Forall([]Term{ixq}, Implies(Or(Lt(ixq, plo), Ge(ixq, phi)), Eq(Select(Select(cur, pref), ixq), Select(Select(fe, pref), ixq)))), ok
+					})
 				}
 			}
 		}
